@@ -6,6 +6,7 @@ import Model.Versioned
 ops: `oL<h>` reader(), `oI<h>:<id>` reader(id=), `oS<h>:<serial>` reader(serial=), `c<h>` end of read txn `h`,
 `w` writer(), `C<content>:<serial|->:<0|1>` commit (last field: did the txn change anything), `R` rollback,
 `M<int>` / `Mnone` set_max_versions, `Pnone` / `P.` / `P<id,id,…>` set_pruning_policy (ids on which the predicate is true),
+`Q<a>:<b>` set_pruning_policy(lambda zone, v: (a*len(zone._versions)+v.id) % (b+2) != 0),
 `O<h>` observe through read txn `h`.
 -/
 namespace Driver
@@ -42,6 +43,10 @@ def parseOp11 (s : String) : Option Op :=
   | 'P' :: r =>
     let a := String.ofList r
     if a = "none" then some (Op.setPolicy none) else (parseNatList a).map (fun l => Op.setPolicy (some l))
+  | 'Q' :: r =>
+    match (String.ofList r).splitOn ":" with
+    | [a, b] => do some (Op.setModp (← a.toNat?) (← b.toNat?))
+    | _ => none
   | 'O' :: r => (String.ofList r).toNat?.map Op.observe
   | _ => none
 
